@@ -8,9 +8,13 @@
    or p = concat (body_i ++ gap_i) for segments with gap_i all spaces and
    pen_i ∈ {[], "-"}, and line i of pl is  indent_i ++ body_i ++ pen_i, Borrowed at the
    byte offset of body_i in p when indent_i and pen_i are empty, Owned otherwise; with the
-   ASCII separator no body ends in a space.  (For the Unicode separator a body can end in
-   a space only through a force-broken or custom-split word containing one; that clause
-   is checked on the implementation by L2, not proved.) *)
+   ASCII separator no body ends in a space.  For the Unicode separator a body can end in
+   a space only through a force-broken or custom-split word containing one:
+   C01_body_ends_in_space_only_if below, for any oracle that answers with character
+   boundaries (OracleOK) and never breaks between two spaces (UAX #14 LB7; asserted by the
+   harness on every generated case); the examples in Proofs/TrailingSpace.v show that each
+   of the three escape routes (break_words, custom splitter, an oracle breaking between
+   spaces) is real. *)
 From TW Require Import Wrap Custom WrapSmawk.
 From TW Require Import Paragraphs Pipeline SmawkShape.
 
@@ -48,6 +52,18 @@ Proof. exact seg_lines_line. Qed.
 Theorem C01_hypotheses_met : OfitOK ofit_dp /\ OfitOK ofit_smawk /\ SplitterOK custom3.
 Proof. split; [exact ofit_dp_ok|split; [exact ofit_smawk_ok|exact custom3_splitter_ok]]. Qed.
 
+(* bodies are the [body g] of the groups the algorithm forms from the pipeline's fragments
+   (Pipeline.slow_path_groups); for ANY grouping of those fragments: *)
+From TW Require Import Lossless TrailingSpace.
+Theorem C01_body_ends_in_space_only_if : forall cw alnum lbc custom_sp o first line bws groups g,
+  SplitterOK custom_sp ->
+  (o_sep o = SepUnicode -> OracleOK (strip line) (lbc (strip line)) /\ NoBreakBetweenSpaces (strip line) (lbc (strip line))) ->
+  pipeline_words cw alnum lbc custom_sp o first line = Some bws ->
+  concat groups = bws -> In g groups -> ~ no_trailing_sp (body g) ->
+  o_sep o = SepUnicode /\ (o_bw o = true \/ o_spl o = SplCustom).
+Proof. exact body_ends_in_space_only_if. Qed.
+
+Print Assumptions C01_body_ends_in_space_only_if.
 Print Assumptions C01_wrap.
 Print Assumptions C01_line_of_segment.
 Print Assumptions C01_hypotheses_met.
